@@ -45,9 +45,10 @@ def _rev(e: ast.AST):
 
 
 class SeqBuilder:
-    def __init__(self, fn: ast.FunctionDef):
+    def __init__(self, fn: ast.FunctionDef, empty_ctors=("Scope",)):
         self.fn = fn
         self.al = Aliases(fn)
+        self.empty_ctors = set(empty_ctors)
 
     def sequence(self, name: str):
         """segments of local list `name` after the whole function body ran (None when not understood)"""
@@ -79,6 +80,8 @@ class SeqBuilder:
             return self._iter(e.args[0]) if e.args else []
         if isinstance(e, ast.Name) and e.id in self.env:
             return list(self.env[e.id])
+        if isinstance(e, ast.Call) and isinstance(e.func, ast.Name) and e.func.id in self.empty_ctors and not e.args:
+            return []  # an empty container of the package (`Scope(owner=…)`)
         raise Unknown()
 
     def _iter(self, e: ast.AST):
@@ -152,7 +155,7 @@ class SeqBuilder:
                             part = list(self.env[it.id])
                             self.env[name] = self.env[name] + (self._reverse(part) if rev else part)
                         else:
-                            self.env[name] = self.env[name] + [("each", it, rev, n.args[0])]
+                            self.env[name] = self.env[name] + [("each", it, rev, n.args[0], s)]
                     elif meth == "insert" and len(n.args) == 2 and isinstance(n.args[0], ast.Constant) and n.args[0].value == 0:
                         self.env[name] = [("each", it, not rev, n.args[1])] + self.env[name]
                     elif meth in ("extend", "clear", "pop", "remove", "reverse", "sort"):
